@@ -205,6 +205,36 @@ theorem queued_jobs_wait_behind_work_partial (c : CaseCfg) (steps : List Step) (
       exact hcurr heq
     · exact Or.inl hh
 
+/-- (jobs queued for a worker that dies are given to its replacement — the hand-over itself) `replace_worker` on a
+slot whose queue starts with a job `j` that has not expired, with the freshly built actor open: `j` is the replacement's
+first message (appended to its — empty — mailbox), the rest of the queue stays queued in order, and the slot books `j`
+as its one job in flight. Whatever the dead incarnation had in flight is forgotten (`curr_jobs` cleared): those jobs are
+the `lost` ones of `die_loses_only_held`. -/
+theorem replacement_gets_next_queued_job (p : WP) (e : Env) (naid : Nat) (j : Job) (rest : List Job) (a : Actor)
+    (hmq : p.mq = j :: rest) (hne : j.expired e.now = false) (ha : e.getActor naid = some a) (hal : a.alive = true) :
+    (p.replaceWorker e naid).1.mq = rest ∧ (p.replaceWorker e naid).1.curr = [(j.key, j.id)] ∧
+    (p.replaceWorker e naid).1.actor = naid ∧
+    (p.replaceWorker e naid).2.getActor naid = some { a with mailbox := a.mailbox ++ [j] } := by
+  have haid : a.aid = naid := getActor_aid ha
+  have hn : ¬ ((!a.alive) = true) := by rw [hal]; exact Bool.false_ne_true
+  have hgn : getNextNonExpired p.handler (j :: rest) (p.curr.foldl (fun acc x => acc.erase x.1) p.pending) e =
+      (some j, rest, p.curr.foldl (fun acc x => acc.erase x.1) p.pending, e) := by
+    unfold getNextNonExpired
+    simp only [hne, Bool.not_false, if_true]
+  have hcast : e.cast naid j = some (e.setActor { a with mailbox := a.mailbox ++ [j] }) := by
+    unfold Env.cast
+    simp only [ha]
+    rw [if_neg hn]
+  generalize ha' : ({ a with mailbox := a.mailbox ++ [j] } : Actor) = a' at hcast ⊢
+  have haid' : a'.aid = naid := by subst ha'; exact haid
+  have hgs := getActor_setActor_self e a a' (by rw [haid']; exact ha)
+  rw [haid'] at hgs
+  unfold WP.replaceWorker WP.getNext
+  simp only [hmq, hgn]
+  unfold WP.dispatchJob
+  simp only [hcast]
+  exact ⟨trivial, by first | rfl | simp [currInsert], trivial, hgs⟩
+
 /-! ## TTL expiry at the two dequeue points -/
 
 /-- (worker dequeue, `get_next_non_expired_job`) whatever the worker's queue holds, the job handed on is not
@@ -469,6 +499,7 @@ end C13
 #print axioms C13.one_job_lost_per_death_partial
 #print axioms C13.stopped_workers_hold_nothing_partial
 #print axioms C13.queued_jobs_wait_behind_work_partial
+#print axioms C13.replacement_gets_next_queued_job
 #print axioms C13.worker_dequeue_skips_expired
 #print axioms C13.factory_dequeue_skips_expired
 #print axioms C13.never_panics
